@@ -278,6 +278,25 @@ func hostileInputs(r *core.Rand, which int) []c01Item {
 	}
 	switch which % 10 {
 	case 0: // TWCC announcing many received packets in few octets
+		if r.Intn(3) == 0 {
+			// far more maximal "received" runs than the status count needs: the count is reached after
+			// 8 chunks; a decoder that does not stop there (a status counter that wraps) goes on
+			// creating 8191 deltas per 2 octets
+			k := r.Pick(9, 10, 16, 64, 100, 345, 690)
+			c := r.Pick(65535, 65535, 65534, 65528, 65529, 60000, 57345)
+			n := 20 + 2*k + r.Pick(0, 1, 2, 4, 64)
+			n += (4 - n%4) % 4
+			b := make([]byte, n)
+			copy(b[4:20], r.Bytes(16))
+			for i := 0; i < k; i++ {
+				w := r.Pick(0x3FFF, 0x3FFF, 0x5FFF, 0x3FFE, 0x2001|0x1FFE)
+				b[20+2*i], b[21+2*i] = byte(w>>8), byte(w)
+			}
+			hdr(b, 15, 205)
+			b[14], b[15] = byte(c>>8), byte(c)
+			items = append(items, c01Item{1 + int(gen.TWCC), b}, c01Item{0, b}, c01Item{1 + int(gen.Compound), b})
+			break
+		}
 		if r.Bool() {
 			// announced delta octets of 64 KiB and more (where a 16-bit sum wraps), declared length
 			// fitted to the wrapped amount
